@@ -274,7 +274,7 @@ def main_c02():
     jobs = [{"opts": opts, "configs": ch} for ch in C.chunks(cfgs, C.NCPU * 4)]
     outs = C.run_workers("replay_cable", jobs)
     n_eval = n_ref = pairs = 0
-    worst = {"cons": 0.0, "overshoot": 0.0, "recip": 0.0, "unif": 0.0, "resp_neg": 0.0}
+    worst = {"cons": 0.0, "overshoot": 0.0, "recip": 0.0, "unif": 0.0, "resp_neg": 0.0, "bound_cm": 0.0}
     for o in outs:
         for rec in o["results"]:
             sc = shape_class(rec["parents"], rec["ncomp"])
@@ -289,7 +289,8 @@ def main_c02():
                 for key, tol, what in (("cons", 1e-10, "charge is not conserved"),
                                        ("overshoot", 1e-10 + ctol, "voltage leaves [min(v,E), max(v,E)] (maximum principle)"),
                                        ("recip", 1e-10 + ctol, "response is not reciprocal"),
-                                       ("unif", 1e-10 + ctol, "uniform model does not stay uniform")):
+                                       ("unif", 1e-10 + ctol, "uniform model does not stay uniform"),
+                                       ("bound_cm", 1e-12, "capacitances bound through data_set do not reach the axial coupling")):
                     if key in s:
                         worst[key] = max(worst[key], s[key] / tol)
                         if not (s[key] <= tol):
